@@ -75,7 +75,7 @@ ADDED = {
     "C16": "; every fourth history runs against a wrapped sink whose flush() fails with an error of its own (only a caller's flush may see it: a handler call carrying it is handler-without-failure); compose: an outer queue with a handler directly around a small blocked inner queue (refusals of the inner queue are failures like any other); a handler that flushes a clone of its own queue",
     "C17": "; macros invoked from a thread-local destructor at thread exit (client set); a process killed by a signal counts; arguments spelled as call / brace block / identifier / parenthesised / if-match; a return inside an argument leaves the caller; unset macros panic before evaluating their arguments",
     "C19": "; rule F4 is also judged on the random W1 / spy / socket histories with injected write failures (every error kind incl. WouldBlock, kernel EAGAIN): a refused write is no reason to write early later; W5: metrics refused by a wrapper in front of the buffered sink give no reason to write; miri_time (hour-long pauses on Miri's virtual clock: direct, behind an idle queue, after dropping one of two handles) and seven histories with real pauses of 1.3 / 2.6 s - nothing is written 'after a while'; buffered UDP sinks addressed to another host with capacities above 1432",
-    "C20": "; area tls: metrics recorded from thread-local destructors at thread exit (queue, client over queue, buffered spy, client with handler); miri_api: a tour of the whole public API under Miri (UB / data races of the paths reached, lines compared with literals); Unix socket paths of 98-5000 bytes, with an interior NUL, empty; the last shard of each area runs with an unwritable standard error",
+    "C20": "; the format / writer / queue / misc areas are also run against an unoptimised build of the library (opt-level 0); area smallstack: callers with a 64 KiB stack; metrics with tens of thousands of tags; area tls: metrics recorded from thread-local destructors at thread exit (queue, client over queue, buffered spy, client with handler); miri_api: a tour of the whole public API under Miri (UB / data races of the paths reached, lines compared with literals); Unix socket paths of 98-5000 bytes, with an interior NUL, empty; the last shard of each area runs with an unwritable standard error",
 }
 
 
@@ -692,6 +692,12 @@ def _c20(bindir, tier, seed):
         js[-1].env = dict(HOSTILE_ENV)
         js[-1].stderr_full = True
         jobs += js
+    # the same hostile inputs against an UNOPTIMISED build (what `cargo test` gives a user: big frames, no inlining, no
+    # tail calls): fewer cases, it is an order of magnitude slower
+    for area, cases_q, cases_t in (("format", 6, 120), ("writer", 600, 20000), ("misc", 20, 200), ("queue", 60, 1500)):
+        j = Job("C20-unoptimised-%s" % area, [os.path.join(TARGET, "debug", "hostile_driver"), "--area", area, "--cases", str(cases_q if q else cases_t), "--seed", str(seed), "--shard", "0", "--shards", "1", "--out", "{out}"], 3400)
+        j.needs_dev_build = True
+        jobs.append(j)
     # memory-safety observer: a compact tour of the whole public API under Miri (UB, data races, leaks of the paths reached)
     jobs.append(miri_job("C20-miri-api", "C20", "miri_api", [], 2 if q else 32, seed, 1500 if q else 7200, fail_marker="API-ORACLE-FAILED"))
     if not q:
